@@ -35,6 +35,53 @@ func validRange(r Range) bool {
 	return r.Stop == 0 || r.Start <= r.Stop
 }
 
+// memR is inRange as an uninterpreted symbol (with its definition supplied per
+// application), so that quantified membership facts have a trigger.
+//
+//@ pure
+//@ opaque
+func memR(r Range, q uint32) bool { return inRange(r, q) }
+
+// mergeable / mergeSpec: the explicit arithmetic reading of Merge for ranges
+// that satisfy the representation invariant (0 in Stop is "unbounded").
+//
+//@ pure
+func mergeable(s, t Range) bool {
+	if s == t {
+		return true
+	}
+	if s.Start == 0 {
+		return t.Stop == 0 // "*" only merges with "*" and "n:*"
+	}
+	if t.Start == 0 {
+		return s.Stop == 0
+	}
+	if s.Start <= t.Start {
+		return s.Stop == 0 || uint64(s.Stop)+1 >= uint64(t.Start)
+	}
+	return t.Stop == 0 || uint64(t.Stop)+1 >= uint64(s.Start)
+}
+
+//@ pure
+func mergeSpec(s, t Range) Range {
+	if s.Start == 0 {
+		return t
+	}
+	if t.Start == 0 {
+		return s
+	}
+	u := s
+	if t.Start < s.Start {
+		u.Start = t.Start
+	}
+	if s.Stop == 0 || t.Stop == 0 {
+		u.Stop = 0
+	} else if t.Stop > s.Stop {
+		u.Stop = t.Stop
+	}
+	return u
+}
+
 //@ func (s Range) Contains(q uint32) (result bool)
 //@   props C15
 //@   ensures result == inRange(s, q)
@@ -53,6 +100,9 @@ func validRange(r Range) bool {
 //@   ensures !ok ==> !(exists q uint32 :: inRange(s, q) && inRange(t, q))
 //@   ensures !ok && s.Start != 0 && t.Start != 0 && s.Start <= t.Start ==> s.Stop != 0 && s.Stop < 4294967295 && s.Stop+1 < t.Start
 //@   ensures !ok && s.Start != 0 && t.Start != 0 && t.Start <= s.Start ==> t.Stop != 0 && t.Stop < 4294967295 && t.Stop+1 < s.Start
+//@   ensures ok ==> forall q uint32 :: memR(union, q) == (memR(s, q) || memR(t, q))
+//@   ensures ok == mergeable(s, t)
+//@   ensures ok ==> union == mergeSpec(s, t)
 
 // ---------------------------------------------------------------------------
 // Sets.
